@@ -36,6 +36,7 @@ def _field_is_semaphore(facts, node):
 
 
 def run(facts, tr, rep):
+    facts, tr = facts.inl, tr.inl        # path rules: private helpers (sync and async) are looked through by inlining
     _n_ops = check_no_panicking_time_arith(facts, tr, rep, "C01.NO-PANIC-ARITH", facts.crates["tower_resilience_bulkhead"].bodies)
     rep.note("panicking Instant/Duration operators examined in the crate: %d" % _n_ops)
     bh = BH(facts, tr, rep)
